@@ -458,8 +458,13 @@ Definition step (r : req) (w : world) : list req * world :=
       | ASubscribe p port =>
           let ser := c_serial ct in
           let '(o', w1) := alloc_obs w (THandler n port ser) in
-          let w2 := set_ctl w1 c {| c_sub := sub; c_uns := c_uns ct ++ [(ser, o')]; c_serial := S ser |} in
-          ([SubscribePipe p o'], w2)
+          if alive then
+            let w2 := set_ctl w1 c {| c_sub := sub; c_uns := c_uns ct ++ [(ser, o')]; c_serial := S ser |} in
+            ([SubscribePipe p o'], w2)
+          else
+            (* new_observer after the end: an observer that is already unsubscribed, not registered *)
+            let w2 := set_ctl w1 c {| c_sub := sub; c_uns := c_uns ct; c_serial := S ser |} in
+            ([SubscribePipe p o'], set_obs w2 o' (set_slots (obs w2 o') false false false))
       | ASubjNew k =>
           let '(h, w1) := alloc_subj w k None in
           ([], match n_op nd with OWindow _ => set_nst w1 n (st_set_subj (n_st (nodes w1 n)) h) | _ => w1 end)
@@ -512,6 +517,7 @@ Definition step (r : req) (w : world) : list req * world :=
       end
   (* ---- Observable::inner_subscribe: run the source closure ---- *)
   | SubscribePipe p o =>
+      if negb (is_sub (obs w o)) then ([], w) else        (* a subscription that has already ended subscribes nothing *)
       match p with
       | PCold s => let att := attempts w s in
                    ([Src s att o (script_of w s att) 0], w_attempts (upd (attempts w) s (S att)) w)
